@@ -549,39 +549,23 @@ Fixpoint funcs_dict (acc : list IFunction) (l : list IFunction) : list IFunction
 
 Definition has_slash (s : str) : bool := existsb (N.eqb 47) s.
 
-(* str.split("/") and str.split("::") *)
-Fixpoint split_slash (s : str) (cur : str) : list str :=
-  match s with
-  | [] => [rev cur]
-  | c :: r => if (c =? 47)%N then rev cur :: split_slash r [] else split_slash r (c :: cur)
+(* name.startswith(prefix) / name[len(prefix):] *)
+Fixpoint strip_prefix (p s : str) : option str :=
+  match p with
+  | [] => Some s
+  | c :: p' => match s with
+               | c' :: s' => if (c =? c')%N then strip_prefix p' s' else None
+               | [] => None
+               end
   end.
-Fixpoint split_colons (s : str) (cur : str) : list str :=
-  match s with
-  | [] => [rev cur]
-  | c :: r => match r with
-              | c2 :: r2 => if ((c =? 58) && (c2 =? 58))%N then rev cur :: split_colons r2 []
-                            else split_colons r (c :: cur)
-              | [] => [rev (c :: cur)]
-              end
-  end.
-(* serde._parse_experimental_function_value_info_name: "{domain}::{function}/{value}" *)
-Definition parse_exp (name : str) : option (str * str * str) :=
-  match split_slash name [] with
-  | [fpart; vname] => match split_colons fpart [] with
-                      | [d; f] => Some (d, f, vname)
-                      | _ => None
-                      end
-  | _ => None
-  end.
+Definition exp_prefix (f : IFunction) : str := if_domain f ++ [58; 58]%N ++ if_name f ++ [47]%N.
 
 (* serde._deserialized_experimental_value_info_for_function_ir9, for one function: the main-graph
-   value-info entries whose name designates this function (overload "") are applied to its inputs and node
-   outputs of that name (the last entry of a name wins) *)
+   value-info entries whose name starts with "{domain}::{function}/" (whatever the overload) are applied to
+   its inputs and node outputs named by the rest of the name (the last entry of a name wins) *)
 Definition exp_entries (vinfos : list VInfoP) (f : IFunction) : list (str * VInfoP) :=
-  dict_of (concat (map (fun vi => match parse_exp (dflt [] (vi_name vi)) with
-                                  | Some (d, fn, v) =>
-                                      if str_eqb d (if_domain f) && str_eqb fn (if_name f) && str_eqb [] (if_overload f)
-                                      then [(v, vi)] else []
+  dict_of (concat (map (fun vi => match strip_prefix (exp_prefix f) (dflt [] (vi_name vi)) with
+                                  | Some v => [(v, vi)]
                                   | None => []
                                   end) vinfos)).
 Definition apply_exp_fn (vinfos : list VInfoP) (f : IFunction) : res IFunction :=
